@@ -157,8 +157,35 @@ theorem declare_p_value_rereads (b : Bool) (v : Str) (h : noNul v = true) :
     readAsg b (declValue v) = .value v :=
   (read_quote b _ v rfl h).2
 
-theorem exportP_is_declare_format (name v : Str) :
-    exportP name v = "declare -x ".toList ++ name ++ ['='] ++ declValue v := rfl
+/-- a `declare -<flags> name=value` line carries the attribute flags it was printed with — what
+`eval` of the line restores (the line of `declare -p` and, identically, of `export -p`) -/
+theorem declare_line_carries_attributes (attrs name v : Str) (h : ' ' ∉ attrs) :
+    declFlags (declareP attrs name v) = some (attrStr attrs) ∧
+    declFlags (exportP attrs name v) = some (attrStr attrs) := by
+  have hp : "declare -".toList = ['d', 'e', 'c', 'l', 'a', 'r', 'e', ' ', '-'] := by decide
+  have hs : ' ' ∉ attrStr attrs := by
+    unfold attrStr; split
+    · simp
+    · exact h
+  have ht : ∀ (a r : Str), ' ' ∉ a → (a ++ ' ' :: r).takeWhile (· != ' ') = a := by
+    intro a r ha
+    induction a with
+    | nil => simp
+    | cons c cs ih =>
+      simp only [List.mem_cons, not_or] at ha
+      have hc : c ≠ ' ' := fun e => ha.1 e.symm
+      simp [hc, ih ha.2]
+  have hshape : declareP attrs name v =
+      'd' :: 'e' :: 'c' :: 'l' :: 'a' :: 'r' :: 'e' :: ' ' :: '-' ::
+        (attrStr attrs ++ ' ' :: (name ++ '=' :: declValue v)) := by
+    unfold declareP
+    rw [hp]
+    simp only [List.cons_append, List.nil_append, List.append_assoc]
+  have : declFlags (declareP attrs name v) = some (attrStr attrs) := by
+    rw [hshape, declFlags, ht _ _ hs]
+  exact ⟨this, this⟩
+
+example : declFlags (exportP "rx".toList "v".toList "1".toList) = some "rx".toList := by decide
 
 example : printfQ "a b".toList = "a\\ b".toList := by decide
 
@@ -262,6 +289,35 @@ theorem declare_listing_rereads (b : Bool) (env : Env) (n x attrs : Str)
     (h : lookupEnv env n = some { attrs := attrs, kind := 's', vals := [x] }) (hx : noNul x = true) :
     declareP attrs n x ∈ listing declLine env ∧ readAsg b (declValue x) = .value x :=
   ⟨listing_prints_innermost declLine env n _ _ h (by simp [declLine]), declare_p_value_rereads b x hx⟩
+
+/-- `export -p` line: only for exported variables, the same line as `declare -p` -/
+def exportLine (n : Str) (v : Var) : Option Str := if hasX v.attrs then declLine n v else none
+
+/-- in any scope stack, `export -p` holds for the visible exported scalar exactly its `declare -p`
+line: all of its attribute flags, and a value that reads back to the visible value -/
+theorem export_listing_rereads_with_attributes (b : Bool) (env : Env) (n x attrs : Str)
+    (h : lookupEnv env n = some { attrs := attrs, kind := 's', vals := [x] })
+    (hx : hasX attrs = true) (hs : ' ' ∉ attrs) (hn : noNul x = true) :
+    exportP attrs n x ∈ listing exportLine env ∧
+    declFlags (exportP attrs n x) = some attrs ∧
+    readAsg b (declValue x) = .value x := by
+  refine ⟨listing_prints_innermost exportLine env n _ _ h (by simp [exportLine, hx, declLine, exportP]), ?_,
+    declare_p_value_rereads b x hn⟩
+  have := (declare_line_carries_attributes attrs n x hs).2
+  have hne : attrs.isEmpty = false := by
+    cases attrs with
+    | nil => simp [hasX] at hx
+    | cons _ _ => rfl
+  simpa [attrStr, hne] using this
+
+/-- a visible binding that is not exported has no line in `export -p`, whatever it hides -/
+theorem export_listing_omits_unexported (env : Env) (t : Str) (h : t ∈ listing exportLine env) :
+    ∃ n v, lookupEnv env n = some v ∧ hasX v.attrs = true ∧ declLine n v = some t := by
+  obtain ⟨n, v, hl, ht⟩ := listing_prints_only_innermost exportLine env t h
+  unfold exportLine at ht
+  by_cases hx : hasX v.attrs = true
+  · exact ⟨n, v, hl, hx, by simpa [hx] using ht⟩
+  · simp [hx] at ht
 
 example :
     let inner : Var := { attrs := [], kind := 's', vals := ["it's".toList] }
